@@ -317,6 +317,25 @@ Theorem C05_pauli_first : forall n,
 Proof. exact pauliP_first. Qed.
 Print Assumptions C05_pauli_onb.
 
+(* --- FINDING (code since 9255946, listed in known_findings.d/C05.jsonl): a multi-qubit pulse mapped onto the whole
+       register together with an identifier mapping or an additional noise Hamiltonian makes extend raise
+       ValueError('Require nonzero number of args!') (tensor_insert with pos = []) instead of returning the renamed /
+       augmented pulse; the faithful bookkeeping model raises too --- *)
+Theorem C05_full_register_refuted :
+  extend [mkEntry fr_pulse (QTup [0; 1]) (Some [("a", "A"); ("n", "Nn")]%string)] None 2 None None None None = Raise ErrNoArgs
+  /\ extend [mkEntry fr_pulse (QTup [0; 1]) None] None 2 (Some (4, ["extra"%string])) None None None = Raise ErrNoArgs
+  /\ extend [mkEntry fr_pulse (QTup [0; 1]) None] None 2 None None None None = ReturnSame [].
+Proof. exact full_register_refuted. Qed.
+(* the statement that fails: such an input should be extended like the single-qubit analogue is *)
+Definition C05_full_register_full : Prop := forall p qs m N,
+  1 < length qs -> length (set_diff N qs) = 0 -> exists pl,
+  extend [mkEntry p (QTup qs) (Some m)] (Some N) 2 None None None None = Extended pl.
+Example C05_full_register_single_ok :
+  exists pl, extend [mkEntry (mkPdesc 2 ["a"%string] ["n"%string] "Pauli" 0 false false None false false false false) (QInt 0)
+                       (Some [("a", "A"); ("n", "Nn")]%string)] None 2 None None None None = Extended pl
+             /\ pl_c_ids pl = ["A"%string] /\ pl_n_ids pl = ["Nn"%string] /\ pl_N pl = 1.
+Proof. exact full_register_single_ok. Qed.
+
 (* --- the hypotheses are satisfiable --- *)
 Example C05_ex_krel : forall d1 d2 A B, krel d1 d2 A B (mkron d1 d2 A B).
 Proof. exact krel_mkron. Qed.
